@@ -29,6 +29,7 @@ pub fn exec_case(case: &Case) -> CaseResult {
         Engine::Crash => run_case(case, crate::crash::body),
         Engine::LogSim => run_case(case, crate::logsim::body),
         Engine::IoFault => exec_iofault(case),
+        Engine::Corrupt => run_case(case, crate::corrupt::body),
         _ => unimplemented!("engine {:?}", case.engine),
     }
 }
@@ -59,7 +60,7 @@ fn conc_case(run_seed: u64, tier: Tier, profile: ConcProfile) -> Case {
     let (plan, params) = gen_conc(&mut rng, profile, tier == Tier::Thorough);
     let est = (plan.op_count() as u32) * 40;
     let sched = gen_strategy(&mut rng.fork("sched"), est, true);
-    Case { engine: Engine::Conc, run_seed, plan, sched, schedule: None, fault: None, params, image: None, max_steps: Some(2_000_000), log_plan: None }
+    Case { engine: Engine::Conc, run_seed, plan, sched, schedule: None, fault: None, params, image: None, max_steps: Some(2_000_000), log_plan: None, corrupt: None }
 }
 
 fn conc_spec(prop: &'static str, profile: ConcProfile, rule: &'static str, probes: &'static [&'static str], runs: (u64, u64)) -> CheckSpec {
@@ -89,7 +90,7 @@ fn hist_case(run_seed: u64, tier: Tier, profile: Profile) -> Case {
     let plan = gen_hist(&mut rng, profile, size);
     let est = (plan.op_count() as u32) * 60;
     let sched = gen_strategy(&mut rng.fork("sched"), est, false);
-    Case { engine: Engine::Hist, run_seed, plan, sched, schedule: None, fault: None, params: BTreeMap::new(), image: None, max_steps: None, log_plan: None }
+    Case { engine: Engine::Hist, run_seed, plan, sched, schedule: None, fault: None, params: BTreeMap::new(), image: None, max_steps: None, log_plan: None, corrupt: None }
 }
 
 const HIST_ASSUMPTIONS: &[&str] = &[
@@ -224,7 +225,7 @@ fn iofault_case(run_seed: u64, tier: Tier) -> Case {
     let sched = SchedSpec { strategy: Strategy::Sticky { q_permille: *srng.pick(&[1000u32, 990, 900]) }, seed: srng.next_u64() };
     let mut params = BTreeMap::new();
     params.insert("max_points".to_string(), if tier == Tier::Quick { 30 } else { 100_000 });
-    Case { engine: Engine::IoFault, run_seed, plan, sched, schedule: None, fault: None, params, image: None, max_steps: Some(3_000_000), log_plan: None }
+    Case { engine: Engine::IoFault, run_seed, plan, sched, schedule: None, fault: None, params, image: None, max_steps: Some(3_000_000), log_plan: None, corrupt: None }
 }
 
 fn iofault_spec() -> CheckSpec {
@@ -246,13 +247,71 @@ fn iofault_spec() -> CheckSpec {
         wall_quick: 70.0,
         wall_thorough: 1500.0,
         shrink_plan: false,
-        narrow: Some(Box::new(|case, f| {
+        narrow: Some(Box::new(|case, f, _res| {
             let mut c = case.clone();
             c.fault = Some(f.fault.clone()?);
             Some(c)
         })),
         exhaustive: false,
         extra: json!({"engine": "iofault: real DB + background thread on SimFs with one armed fault per run"}),
+    }
+}
+
+fn corrupt_case(run_seed: u64, tier: Tier) -> Case {
+    let mut rng = Rng::new(run_seed);
+    let size = crate::gen::Size { min_ops: 3, max_ops: if tier == Tier::Quick { 30 } else { 60 }, max_keys: 10, max_reopens: 0 };
+    let mut plan = gen_hist(&mut rng, Profile::Base, size);
+    // small images: few, small files so that every offset can be visited
+    let mut krng = rng.fork("cknobs");
+    plan.opens[0].max_memtable_size = *krng.pick(&[700usize, 1500, 4096, 65536]);
+    plan.opens[0].max_block_size = *krng.pick(&[64usize, 256, 4096]);
+    plan.opens[0].table_cache_cap = 1000;
+    for op in plan.ops.iter_mut() {
+        if let Op::Put { v, .. } = op {
+            if v.len > 400 {
+                v.len = 40 + v.len % 300;
+            }
+        }
+        if let Op::Batch { items } = op {
+            for (_, v) in items.iter_mut() {
+                if let Some(v) = v {
+                    if v.len > 400 {
+                        v.len = 40 + v.len % 300;
+                    }
+                }
+            }
+        }
+    }
+    let mut srng = rng.fork("sched");
+    let sched = SchedSpec { strategy: Strategy::Sticky { q_permille: 990 }, seed: srng.next_u64() };
+    let mut params = BTreeMap::new();
+    params.insert("clean_close".to_string(), srng.below(2) as i64);
+    params.insert("reuse".to_string(), srng.below(2) as i64);
+    params.insert("max_offsets_per_file".to_string(), if tier == Tier::Quick { 120 } else { 100_000 });
+    Case { engine: Engine::Corrupt, run_seed, plan, sched, schedule: None, fault: None, params, image: None, max_steps: Some(50_000_000), log_plan: None, corrupt: None }
+}
+
+fn corrupt_spec() -> CheckSpec {
+    CheckSpec {
+        prop: "C15",
+        level: "fault_enumeration",
+        rule: "one evaluation = one mutated filesystem image + reopen simulation. Base: a small recorded run (3-30 ops quick, -60 thorough; 1-3 tables, a WAL with a few batches, a manifest), closed cleanly or killed. For every table, WAL and manifest file of the image and every offset (all offsets in the thorough tier and for files <= 120 bytes; otherwise the first 16 and last 64 bytes plus a seeded sample of 120) the byte is replaced by {one flipped bit, 0x00, a random byte}; tables are additionally truncated at sampled/every length. Reopen simulation: DB::open, get of every universe key, forward and backward scan. Oracle: every call returns Err or exactly the model's answer; a scan that ends without error must equal the model exactly; for WAL files, additionally any state equal to the model minus a set of whole batches that live in that WAL (brute force over subsets of the last 10). A panic is a violation. distinct_nontrivial = distinct (files, writes, close mode) shapes x probes (mutation kind x file class).",
+        assumptions: vec![
+            "single-byte corruption or table truncation of one file per evaluation".into(),
+            "the two block handles in a table footer are not covered by a checksum; with single-byte mutations of small tables they cannot request more than 2^28 bytes, so no allocation failure (abort) was observed; an abort would terminate the check with a non-0/1 status (harness error), not a violation line".into(),
+        ],
+        expected_probes: &["corrupt@bitflip:table", "corrupt@bitflip:wal", "corrupt@bitflip:manifest", "corrupt@truncate:table"],
+        gen: Box::new(|rs, _i, tier| corrupt_case(rs, tier)),
+        exec: Box::new(exec_case),
+        evals: Box::new(|r| r.stats.extra.get("corruptions_checked").copied().unwrap_or(0).max(1)),
+        runs_quick: 120,
+        runs_thorough: 5000,
+        wall_quick: 70.0,
+        wall_thorough: 1500.0,
+        shrink_plan: false,
+        narrow: Some(Box::new(|_case, _f, res| res.derived.as_ref().map(|c| (**c).clone()))),
+        exhaustive: false,
+        extra: json!({"engine": "corrupt: image of a recorded base run, one reopen simulation (real DB + background thread on SimFs) per mutation; replay files embed the mutated image"}),
     }
 }
 
@@ -270,7 +329,7 @@ fn crash_case(run_seed: u64, tier: Tier, torn: bool) -> Case {
     }
     params.insert("max_points".to_string(), if tier == Tier::Quick { 48 } else { 100_000 });
     params.insert("clean_close".to_string(), (rng.fork("close").below(2)) as i64);
-    Case { engine: Engine::Crash, run_seed, plan, sched, schedule: None, fault: None, params, image: None, max_steps: Some(20_000_000), log_plan: None }
+    Case { engine: Engine::Crash, run_seed, plan, sched, schedule: None, fault: None, params, image: None, max_steps: Some(20_000_000), log_plan: None, corrupt: None }
 }
 
 fn crash_spec(prop: &'static str, torn: bool, rule: &'static str, probes: &'static [&'static str]) -> CheckSpec {
@@ -293,7 +352,7 @@ fn crash_spec(prop: &'static str, torn: bool, rule: &'static str, probes: &'stat
         wall_quick: 70.0,
         wall_thorough: 1500.0,
         shrink_plan: false,
-        narrow: Some(Box::new(|case, f| {
+        narrow: Some(Box::new(|case, f, _res| {
             let p = f.op_index?;
             let mut c = case.clone();
             c.params.insert("crash_at".to_string(), p as i64);
@@ -328,6 +387,7 @@ fn log_spec() -> CheckSpec {
                 image: None,
                 max_steps: Some(50_000_000),
                 log_plan: Some(plan),
+                corrupt: None,
             }
         }),
         exec: Box::new(exec_case),
@@ -367,7 +427,7 @@ fn mixed(mut spec: CheckSpec, variants: Vec<(u32, Variant)>) -> CheckSpec {
         unreachable!()
     });
     spec.evals = Box::new(|r| r.stats.extra.get("crash_points_checked").copied().unwrap_or(1).max(1));
-    spec.narrow = Some(Box::new(|case, f| {
+    spec.narrow = Some(Box::new(|case, f, _res| {
         if case.engine != Engine::Crash {
             return None;
         }
@@ -410,6 +470,7 @@ pub fn spec_for(prop: &str) -> Option<CheckSpec> {
         "C06" => conc_spec("C06", ConcProfile::C06, "one evaluation = one simulated concurrent run in which 1-3 writer tasks each own a row group of 2-8 keys and repeatedly apply one batch writing the same fresh tag to every key of the group (sometimes deleting all, sometimes padded beyond the memtable budget) while 1-2 reader tasks take snapshots / iterators and read whole groups; H4 puts a scheduling point after every single memtable insert, SimFs before and after the WAL append. Oracle: in every snapshot-consistent read all keys of a group carry the same tag.", &["freeze_fired"], (8000, 600_000)),
         "C12" => log_spec(),
         "C08" => iofault_spec(),
+        "C15" => corrupt_spec(),
 
         "C02" => crash_spec(
             "C02",
